@@ -15,6 +15,12 @@ document exercises the family (the general stream would meet them once in a few 
                         depth >= 2 (diamonds included), with `required` NEXT TO `allOf` naming members declared at
                         every position of the lattice (own, direct base, ancestor of the first / of a later base).
 
+* `openapi_params_doc` — OpenAPI documents with an operation whose query parameters are generated as a model
+                        (`openapi_scopes` schemas + paths + parameters): parameters declared with `schema:` and with
+                        `content: {<media type>: {schema: …}}`, arrays / strings / numbers with constraints, required
+                        or not, next to a component schema; per generated class the JSON-Schema document that says
+                        what the class must accept (the instance corpus is derived from it).
+
 Only the documents and candidate instances are made here; validity labels come from jsonschema
 (`semgen.is_valid`, `semgen.mutations`).
 """
@@ -508,3 +514,85 @@ def lattice_classes(doc: dict) -> dict[str, tuple[list[str], list[str]]]:
         own += list(d.get("properties") or {})
         out[name] = (bases, own)
     return out
+
+
+# ------------------------------------------------------------------ OpenAPI: query parameters as a model
+PARAM_NAMES = ["tags", "ids", "q", "limit", "page", "sort", "size", "since", "ratio", "flag", "page-size", "x.filter", "order by"]
+PATH_POOL = [("/pets", "get"), ("/things", "post"), ("/orders/items", "get"), ("/v1/users", "put"), ("/reports", "delete")]
+
+
+def _param_schema(g: DocGen, k: int) -> dict:
+    r = g.rng
+    if k % 3 == 0:
+        # an array with item counts (no constrained-type spelling: they are Field arguments under every option)
+        s: dict[str, Any] = {"type": "array", "items": g.scalar()}
+        lo = r.range(0, 2)
+        if r.chance(3, 4):
+            s["minItems"] = lo
+        if r.chance(3, 4) or "minItems" not in s:
+            s["maxItems"] = lo + r.range(1, 3)
+        return s
+    if k % 3 == 1:
+        return g.string() if r.chance(1, 2) else g.integer()
+    return r.choice([g.number, g.enum, g.boolean, g.integer, g.string])()
+
+
+def openapi_params_doc(rng: Rng, i: int) -> tuple[dict, set[str], list]:
+    """an OpenAPI 3 document, its features and [(class, JSON-Schema document of what that class accepts)]:
+    the query-parameter model of the operation ("*ParametersQuery": found by its suffix) and a component schema"""
+    g = DocGen(rng, GenCfg(max_depth=1, big_bounds=False))
+    r = g.rng
+    feats: set[str] = set()
+    n = r.range(2, 5)
+    names = r.sample(PARAM_NAMES, n)
+    params: list[dict] = []
+    props: dict[str, dict] = {}
+    req: list[str] = []
+    for j, nm in enumerate(names):
+        schema = _param_schema(g, i + j)
+        how = ("content", "schema")[(i + j) % 2] if j < 2 else r.choice(["content", "schema"])
+        p: dict[str, Any] = {"name": nm, "in": "query"}
+        if r.chance(1, 2):
+            p["required"] = True
+            req.append(nm)
+        if how == "schema":
+            p["schema"] = schema
+        else:
+            p["content"] = {r.choice(["application/json", "application/json; charset=utf-8"]): {"schema": schema}}
+        kind = "array" if schema.get("type") == "array" else ("enum" if "enum" in schema else str(schema.get("type")))
+        feats.add(f"param:{how}:{kind}")
+        params.append(p)
+        props[nm] = schema
+    # parameters that are not part of the query model
+    if r.chance(1, 2):
+        params.insert(r.range(0, len(params)), {"name": "id", "in": "path", "required": True, "schema": {"type": "integer", "minimum": 1}})
+        feats.add("param:path")
+    path, method = PATH_POOL[i % len(PATH_POOL)]
+    if any(pp.get("in") == "path" for pp in params):
+        path = path + "/{id}"
+    comp = g.object_(1, props_min=2)
+    comp["properties"]["aliases"] = {"type": "array", "items": {"type": "string"}, "maxItems": r.range(1, 3)}
+    cname = r.choice(["Pet", "Thing", "Order", "Report"])
+    schemas = {cname: comp, **{k: v for k, v in g.defs.items() if v}}
+    rw = lambda x: (  # noqa: E731
+        {k: (v.replace("#/definitions/", "#/components/schemas/") if k == "$ref" and isinstance(v, str) else rw(v)) for k, v in x.items()}
+        if isinstance(x, dict)
+        else ([rw(v) for v in x] if isinstance(x, list) else x)
+    )
+    op: dict[str, Any] = {"parameters": params, "responses": {"200": {"description": "ok"}}}
+    if r.chance(1, 3):
+        # a parameter declared at the path level is inherited by every operation of the path
+        shared = op["parameters"].pop()
+        spec_path: dict[str, Any] = {"parameters": [shared], method: op}
+        feats.add("param:path_level")
+    else:
+        spec_path = {method: op}
+    spec = {"openapi": "3.0.3", "info": {"title": "t", "version": "1"}, "paths": {path: spec_path}, "components": {"schemas": rw(schemas)}}
+    qdoc: dict[str, Any] = {"title": "Model", "type": "object", "properties": props}
+    if req:
+        qdoc["required"] = req
+    cdoc = {"title": "Model", **comp}
+    defs = {k: v for k, v in g.defs.items() if v}
+    if defs:
+        cdoc["definitions"] = defs
+    return spec, feats, [("*ParametersQuery", qdoc), (cname, cdoc)]
